@@ -24,12 +24,16 @@ IndexInBounds(t, idx) ==
   \/ idx.value[1] # "n" \/ idx.value[3] # 1
   \/ idx.value[2] < t.len
 
-\* the token an accessor chain (or a root) denotes; bound: names of quantified variables in scope
+\* the token an accessor chain (or a root) denotes.
+\* bound: function from the quantified variables in scope to the token of the elements they range over;
+\* [k |-> "unknown"] when the domain is not an array of messages (a chain rooted there is not judged)
+Unknown == [k |-> "unknown"]
 RECURSIVE Resolve(_, _, _, _)
 Resolve(n, this, vars, bound) ==
   CASE n.cls = "HplThisMessage" -> this
     [] n.cls = "HplVarReference" ->
-         (IF n.name \in bound THEN Err("BoundVariable")
+         (IF n.name \in DOMAIN bound
+          THEN (IF bound[n.name].k = "unknown" THEN Err("BoundVariable") ELSE bound[n.name])
           ELSE IF n.name \in DOMAIN vars THEN vars[n.name] ELSE Err("NoRoot"))
     [] n.cls = "HplFieldAccess" ->
          (LET t == Resolve(n.message, this, vars, bound) IN
@@ -50,18 +54,27 @@ RefFault(n, this, vars, bound) ==
   IF IsErr(t) THEN t.kind
   ELSE IF TokType(t) \in DT(n) THEN "ok" ELSE "TypeMismatch"
 
+\* the token of the elements a quantifier ranges over: known when the domain is a reference to an array of messages
+ElemToken(dom, this, vars, bound) ==
+  IF ~IsAccessor(dom) THEN Unknown
+  ELSE LET t == Resolve(dom, this, vars, bound) IN
+       IF IsErr(t) THEN Unknown ELSE IF t.k = "arr" /\ t.sub.k = "msg" THEN t.sub ELSE Unknown
+
+Extend(bound, x, t) == [y \in (DOMAIN bound) \cup {x} |-> IF y = x THEN t ELSE bound[y]]
+
 \* all accessor nodes of an expression with the quantified variables in scope at each
-RECURSIVE Accessors(_, _)
-Accessors(n, bound) ==
+RECURSIVE Accessors(_, _, _, _)
+Accessors(n, this, vars, bound) ==
   (IF IsAccessor(n) THEN {<<n, bound>>} ELSE {})
   \cup (IF n.cls = "HplQuantifier"
-        THEN Accessors(n.domain, bound) \cup Accessors(n.condition, bound \cup {n.variable})
-        ELSE UNION {Accessors(Kids(n)[i], bound) : i \in 1..Len(Kids(n))})
+        THEN Accessors(n.domain, this, vars, bound)
+             \cup Accessors(n.condition, this, vars, Extend(bound, n.variable, ElemToken(n.domain, this, vars, bound)))
+        ELSE UNION {Accessors(Kids(n)[i], this, vars, bound) : i \in 1..Len(Kids(n))})
 
 \* faults of a predicate against the type of its own message and of the aliased events;
-\* chains rooted at a quantified variable are not judged
+\* chains rooted at a quantified variable whose element type is not a message type are not judged
 PredFaults(p, this, vars) ==
-  {RefFault(a[1], this, vars, a[2]) : a \in Accessors(p, {})} \ {"ok", "BoundVariable"}
+  {RefFault(a[1], this, vars, a[2]) : a \in Accessors(p, this, vars, [x \in {} |-> Unknown])} \ {"ok", "BoundVariable"}
 
 AllEvents(p) == Opt(p.scope.activator) \o Opt(p.scope.terminator) \o Opt(p.pattern.trigger) \o <<p.pattern.behaviour>>
 RECURSIVE ConcatSimple(_)
